@@ -120,10 +120,8 @@ def run(ctx):
     # the encoding clauses (C04) are prerequisites of exactness: re-evaluated here, reported under their own rule ids
     from . import c04
     c04.run(ctx)
-    # so is the SMT-LIB text of every operator (smt/serialize.rs, anchored by this property): a term written with the wrong operator or sort
-    # makes the solver answer a different question; the expression-writer clauses of C05, reported under their own rule ids
-    from . import c05
-    c05.run_expr(ctx)
+    # (c04.run also re-evaluates the expression-writer clauses of C05: a term written with the wrong operator or sort makes the solver
+    # answer a different question; smt/serialize.rs is an anchor of this property too)
 
 
 def loop_shell(ctx):
